@@ -861,6 +861,11 @@ def check_any(ctx, tu):
         ctx.broken('R-C09-3: record %s not found' % ANY)
         return
     holders = [f for f in rec['fields'] if 'unique_ptr' in f['ct'] or 'shared_ptr' in f['ct'] or f['ct'].endswith('*')]
+    if len(holders) > 1:
+        # several pointer members (e.g. a cached type_info): the holder is the one whose pointee is a class nested in Any
+        nested = [f for f in holders if (ANY + '::') in f['ct']]
+        if len(nested) == 1:
+            holders = nested
     if len(holders) != 1:
         ctx.broken('R-C09-3: cannot identify the holder member of %s' % ANY)
         return
@@ -1247,6 +1252,10 @@ def check_any_get(ctx, tu, R5):
             has_cmp = any(c in ('strcmp', 'std::type_info::operator==', 'std::type_info::hash_code') or c.endswith('type_info::operator==') for c in calls)
             has_typeid = any(nn.get('kind') == 'CXXTypeidExpr' for nn in stmts)
             has_holder_type = any(c.endswith('handle_base::valueTypeID') for c in calls)
+            ti_fields = [fl['name'] for fl in tu.records.get(f['recid'], {}).get('fields', []) if 'type_info' in fl['ct']]
+            cached = [nn.get('name') for nn in stmts if nn.get('kind') == 'MemberExpr' and nn.get('name') in ti_fields]
+            if cached and not has_holder_type:
+                has_holder_type = True       # compared with a cached std::type_info member; R-C09-10 decides that it is kept current
             wrong = None
             for nn in stmts:
                 if nn.get('kind') == 'BinaryOperator' and nn.get('opcode') in ('==', '!=', '<', '>', '<=', '>='):
@@ -1564,6 +1573,114 @@ def check_any_categories(ctx, tu):
                           key='%s|rkcommon/utility/Any.h|Any::handle|holder-of-any' % R)
 
 
+# ============================================================================================
+#  R-C09-10: members of Any that mirror the holder are written wherever the holder is
+# ============================================================================================
+def check_any_mirrors(ctx, tu):
+    R = 'R-C09-10'
+    ctx.describe(R, 'every data member of Any besides the holder (a cached type, a flag) describes the held value: each member function that '
+                    'replaces the holder also writes that member; a function that writes only the holder leaves the description stale')
+    rec = None
+    for r in tu.records.values():
+        if r['q'] == ANY:
+            rec = r
+    if rec is None:
+        ctx.broken('%s: record %s not found' % (R, ANY))
+        return
+    ptrs = [f for f in rec['fields'] if 'unique_ptr' in f['ct'] or 'shared_ptr' in f['ct'] or f['ct'].endswith('*')]
+    holder = [f for f in ptrs if (ANY + '::') in f['ct']] or ptrs
+    if len(holder) != 1:
+        ctx.ok(R, 'Any', 'not decided here (holder member not identified)', 'rkcommon/utility/Any.h', nontrivial=False)
+        return
+    holder = holder[0]['name']
+    mirrors = [f['name'] for f in rec['fields'] if f['name'] != holder]
+    if not mirrors:
+        ctx.ok(R, 'Any', 'the holder `%s` is the only data member' % holder, 'rkcommon/utility/Any.h')
+        return
+
+    hasinit = {fl['name']: fl.get('hasinit') for fl in rec['fields']}
+
+    def writes(f, member):
+        """does the function (body or constructor initialisers) write the member of *this?"""
+        if f.get('ctor') and hasinit.get(member):
+            return True          # a constructor gives the member its default member initialiser unless it says otherwise
+        for e in (tu.cfg(f).blocks.values() if tu.cfg(f) else ()):
+            for el in e.el:
+                if el[0] == 'I' and el[3] == member and len(el) > 4 and el[4]:
+                    return True
+                if el[0] == 'I' and el[3] == member:
+                    init = tu.node(el[1])
+                    if init is not None and init.get('kind') != 'CXXDefaultInitExpr':
+                        return True
+        for x in tu.walk(tu.body(f) or {}):
+            k = x.get('kind')
+            tgt = None
+            if k in ('BinaryOperator', 'CompoundAssignOperator') and x.get('opcode', '').endswith('=') and x.get('opcode') not in ('==', '!=', '<=', '>='):
+                tgt = tu.strip(tu.kids(x)[0], casts=True)
+            elif k == 'CXXOperatorCallExpr' and tu.sd(x).get('q', '').endswith('::operator=') and len(tu.kids(x)) >= 2:
+                tgt = tu.strip(tu.kids(x)[1], casts=True)
+            elif k == 'CXXMemberCallExpr' and tu.sd(x).get('q', '').split('::')[-1] in ('reset', 'swap', 'release'):
+                tgt = tu.strip(tu.call_parts(x)[1], casts=True) if tu.call_parts(x)[1] is not None else None
+            if tgt is not None and tgt.get('kind') == 'MemberExpr' and tgt.get('name') == member:
+                base = tu.strip(tu.kids(tgt)[0], casts=True) if tu.kids(tgt) else None
+                if base is None or base.get('kind') == 'CXXThisExpr':
+                    return True
+        return False
+    n = 0
+    for f in sorted(tu.functions.values(), key=lambda x: (x['q'], x['fty'])):
+        if f['dep'] or f.get('rec') != ANY or tu.body(f) is None:
+            continue
+        if not writes(f, holder):
+            continue
+        # delegation: a function that assigns through another Any member (e.g. `*this = Any(x)`) is judged through that member
+        n += 1
+        inst = '%s %s' % (f['q'].replace('rkcommon::utility::', ''), f['fty'])
+        stale = [m for m in mirrors if not writes(f, m)]
+        if stale:
+            ctx.violation(R, inst, 'replaces the holder `%s` but never writes `%s`, which describes the held value and is read elsewhere: after this '
+                          'operation the member still describes the previous payload (stale type / state)' % (holder, '`, `'.join(stale)),
+                          tu.fn_loc(f), key='%s|%s|%s|mirror-not-updated' % (R, tu.fn_file(f), pattern_name(tu, f)))
+        else:
+            ctx.ok(R, inst, 'writes %s together with the holder' % ', '.join('`%s`' % m for m in mirrors), tu.fn_loc(f))
+    if n == 0:
+        ctx.undecided(R, 'Any', 'no member function that writes the holder `%s` was found' % holder, 'rkcommon/utility/Any.h')
+
+
+# ============================================================================================
+#  R-C09-11: the payload of an Optional is direct-initialised, never list-initialised
+# ============================================================================================
+def check_optional_init_style(ctx, tu):
+    R = 'R-C09-11'
+    ctx.describe(R, 'every placement-new of the payload in Optional uses direct initialisation `T(args...)`: list-initialisation `T{args...}` '
+                    'prefers an initializer_list constructor, so emplace(3, 7) on an Optional<std::vector<int>> would hold {3, 7} and an '
+                    'Optional<std::vector<Any>> built from a vector would hold a one-element vector wrapping it')
+    n = 0
+    seen = set()
+    for f in sorted(tu.functions.values(), key=lambda x: (x['q'], x['fty'])):
+        if f.get('rec') != OPT or tu.body(f) is None:
+            continue
+        for x in tu.walk(tu.body(f)):
+            if x.get('kind') != 'CXXNewExpr' or not tu.sd(x).get('nplace', 0):
+                continue
+            pk = (pattern_name(tu, f), tu.loc(x))
+            if pk in seen:
+                continue
+            seen.add(pk)
+            n += 1
+            inst = '%s @%s' % (pattern_name(tu, f), tu.loc(x))
+            style = x.get('initStyle')
+            if style == 'list':
+                ctx.violation(R, inst, 'the payload is constructed with braces (`%s`): for payload types with an initializer_list constructor the '
+                              'arguments become the elements of a list instead of constructor arguments, so the wrapper does not hold the value '
+                              'it was given' % tu.show(x)[:70], tu.loc(x),
+                              key='%s|rkcommon/utility/Optional.h|%s|list-initialisation' % (R, pattern_name(tu, f)))
+            elif style in ('call', None):
+                ctx.ok(R, inst, 'direct initialisation' if style == 'call' else 'default initialisation', tu.loc(x), nontrivial=False)
+            else:
+                ctx.undecided(R, inst, 'initialisation style `%s` not recognised' % style, tu.loc(x))
+    ctx.floor(R, n, 3, 'placement-new sites in Optional (constructors, emplace, default_construct_storage_if_needed)')
+
+
 def run(ctx):
     ctx.assume('*this and the argument of an Optional assignment are distinct objects (self-assignment not modelled)')
     ctx.assume('payload types behave as values; their own constructors/destructors are not analysed')
@@ -1571,8 +1688,10 @@ def run(ctx):
     check_optional(ctx, tu)
     check_layout(ctx, tu)
     check_storage_bytes(ctx, tu)
+    check_optional_init_style(ctx, tu)
     check_any(ctx, tu)
     check_any_categories(ctx, tu)
+    check_any_mirrors(ctx, tu)
     check_demangle(ctx)
     if ctx.tier == 'thorough':
         tu2 = ctx.front.parse('drivers/wrappers.cpp', 'TBB', std='gnu++17')
